@@ -242,7 +242,30 @@ def gen_cases(tier, seed):
     for i in range(1 if tier == "quick" else 4):
         cs.append(Case("slow%d" % i, "lo", [("socks", "http")[i % 2], "slow_target", (8 << 20) + r.randint(0, 9999), 200, 4000],
                        "loopback-slow-target", True, model=False))
+    # the relays at both ends of a tunnel (C01_tunnel_prefix / _complete, Model/Relay.v): application -> SOCKS5 / HTTP
+    # front-end Task2 -> write_data_frame -> session -> StreamReader -> server Task1 -> target, and back through
+    # send_data + the forwarding task. The chunks are written one by one with a pause, so that the copy loops see reads
+    # of different lengths over the same reused buffer (a long read followed by shorter ones; sizes around the relay
+    # buffer and around one frame). Real time, real sockets; the model runs the same plan through Relay + Sess.
+    RS = [1, 2, 7, 100, 1000, 4095, 4096, 8191, 8192, 8193, 9000, 16384, 16385, 30000, 65535, 65536, 65537, 70000, 140000]
+    for i in range(6 if tier == "quick" else 60):
+        def plan():
+            k = r.randint(1, 7)
+            xs = [r.choice(RS) if r.random() < 0.7 else r.randint(1, 20000) for _ in range(k)]
+            if r.random() < 0.6:                      # a long chunk directly followed by short ones (stale buffer tail)
+                j = r.randrange(len(xs))
+                xs[j:j] = [r.choice([8192, 8193, 20000, 70000]), r.randint(1, 50), r.randint(1, 9)]
+            return ",".join(map(str, xs))
+        cs.append(Case("rl%d" % i, "lo", [("socks", "http")[i % 2], "chunks", 0, 0, 2000, ("-", "cs")[(i // 2) % 2], plan(), plan(),
+                                          r.choice([0, 1, 3])], "tunnel-relays", True))
     return cs
+
+
+def tok(s, key):
+    for t in s.split():
+        if t.startswith(key + "="):
+            return t[len(key) + 1:]
+    return None
 
 
 def oracle(c, ir):
@@ -257,6 +280,20 @@ def oracle(c, ir):
             return ("the peer's data frames for the stream arrived while open_stream was still in progress (after the inbound queue "
                     "had been registered): the reader got %s (state %s), expected %s: bytes the peer sent were lost" % (res, pc, want))
         return None
+    if c.drv == "lo" and c.args[1] == "chunks":
+        # reference, independent of the model: the bytes that arrive are the bytes that were sent, nothing more
+        up = [int(x) for x in c.args[6].split(",")] if c.args[6] != "-" else []
+        down = [int(x) for x in c.args[7].split(",")] if c.args[7] != "-" else []
+        if tok(ir, "reply") != "ok" or tok(ir, "tgt_conn") != "1":
+            return "loopback setup failed: " + ir[:160]
+        for key, side, n in (("fwd", "c", sum(up)), ("rev", "s", sum(down))):
+            want = "%d.%08x" % (n, G.fnv(G.gen(side, 1, 0, n)))
+            if tok(ir, key) != want:
+                return ("tunnel %s: the %s received %s, the other end sent %s (length.fnv): bytes lost, altered, duplicated or "
+                        "reordered by a relay" % (key, "target" if key == "fwd" else "application", tok(ir, key), want))
+        if tok(ir, "extra") != "0":
+            return "tunnel: %s byte(s) arrived that nobody sent" % tok(ir, "extra")
+        return None
     if c.drv == "lo":
         from . import c08
         return c08.lo_oracle(c, ir)
@@ -266,4 +303,6 @@ def oracle(c, ir):
 
 
 def same(c, ir, mr):
+    if c.drv == "lo":
+        return tok(ir, "fwd") == tok(mr, "fwd") and tok(ir, "rev") == tok(mr, "rev")
     return ir == mr
